@@ -407,16 +407,16 @@ Section Fuel.
     destruct th as [t steps f|t [|]]; cbn [run_thr].
     - unfold run_main. destruct steps as [|[d|d] rest]; cbn [fst].
       + destruct f as [[d|j]| | |d|d|]; cbn [fst];
-          rewrite ?weight_pause, ?weight_add_wait; cbn; lia.
-      + rewrite weight_add_wait. cbn. lia.
-      + rewrite weight_pause, weight_add_wait. cbn. lia.
+          rewrite ?weight_pause, ?weight_add_wait; cbn [w_thr w_steps w_fin fold_right]; unfold w_steps; lia.
+      + rewrite weight_add_wait. cbn [w_thr w_steps w_fin fold_right]. unfold w_steps. lia.
+      + rewrite weight_pause, weight_add_wait. cbn [w_thr w_steps w_fin fold_right]. unfold w_steps. lia.
     - cbn [fst]. rewrite !weight_eq. cbn [pend paused].
       pose proof (wweight_filter (fun w => negb (is_main t w)) (pend s)). pose proof (pweight_del t (paused s)).
-      cbn. lia.
+      cbn [w_thr w_steps w_fin fold_right]. unfold w_steps. lia.
     - destruct (lookup t (paused s)) as [[steps f]|] eqn:El; cbn [fst].
       + rewrite weight_add_wait. rewrite !weight_eq. cbn [pend paused].
-        pose proof (pweight_del_lookup t (paused s) steps f El). cbn. lia.
-      + cbn. lia.
+        pose proof (pweight_del_lookup t (paused s) steps f El). cbn [w_thr w_fin]. lia.
+      + cbn [w_thr w_steps w_fin fold_right]. unfold w_steps. lia.
   Qed.
 
   Lemma resume_ok fuel : forall s h, (weight s <= fuel)%nat -> snd (resume H h_end h_kill fuel s h) = true.
@@ -433,7 +433,7 @@ Section Fuel.
       destruct (run_thr H h_end h_kill s1 h (wthr m)) as [s2 h2]. cbn [fst] in Hr.
       apply IH.
       pose proof (wweight_remove m (x :: r) (min_w_in r x)) as Hm.
-      rewrite weight_eq in Hw, Hr. rewrite Ep in Hw. unfold s1 in Hr. cbn [pend paused] in Hr. lia.
+      rewrite (weight_eq s) in Hw. rewrite (weight_eq s1) in Hr. rewrite Ep in Hw. unfold s1 in Hr. cbn [pend paused] in Hr. fold m in Hm. lia.
   Qed.
 End Fuel.
 
@@ -459,3 +459,78 @@ Proof.
   cbn [run_from] in Hin. fold (s_step st o) in Hin. pose proof (s_step_hang st o) as U.
   destruct (s_step st o) as [st' ob']. destruct Hin as [<-|Hin]; [exact U|]. eapply IH; eauto.
 Qed.
+
+(* ---- after the resume loop nothing that is due is still waiting ------------------------------------------------ *)
+Lemma w_ltb_le a x : wdue (if w_ltb a x then a else x) <= wdue a /\ wdue (if w_ltb a x then a else x) <= wdue x.
+Proof.
+  unfold w_ltb. destruct (N.ltb_spec (wdue a) (wdue x)); cbn [orb]; [lia|].
+  destruct (N.eqb_spec (wdue a) (wdue x)); cbn [andb]; [|lia].
+  destruct (wseq a <? wseq x); lia.
+Qed.
+
+Lemma min_w_le l : forall x y, In y (x :: l) -> wdue (min_w x l) <= wdue y.
+Proof.
+  induction l as [|a l IH]; intros x y Hy; cbn [min_w].
+  - destruct Hy as [->|[]]. lia.
+  - destruct (w_ltb_le a x) as [H1 H2].
+    destruct Hy as [E|[E|Hy]].
+    + subst y. pose proof (IH (if w_ltb a x then a else x) (if w_ltb a x then a else x) (or_introl eq_refl)). lia.
+    + subst y. pose proof (IH (if w_ltb a x then a else x) (if w_ltb a x then a else x) (or_introl eq_refl)). lia.
+    + apply IH. now right.
+Qed.
+
+Section Due.
+  Variable H : Type.
+  Variable h_end : N -> option dval -> H -> H.
+  Variable h_kill : N -> H -> H.
+
+  Lemma run_thr_frame s h th : frame (fst (run_thr H h_end h_kill s h th)) = frame s.
+  Proof.
+    destruct th as [t steps f|t [|]]; cbn [run_thr].
+    - unfold run_main. destruct steps as [|[d|d] rest]; cbn [fst]; try reflexivity.
+      destruct f as [[d|j]| | |d|d|]; reflexivity.
+    - reflexivity.
+    - destruct (lookup t (paused s)) as [[steps f]|]; reflexivity.
+  Qed.
+
+  Lemma resume_nothing_due fuel : forall s h, (weight s <= fuel)%nat ->
+    frame (fst (fst (resume H h_end h_kill fuel s h))) = frame s /\
+    forall w, In w (pend (fst (fst (resume H h_end h_kill fuel s h)))) -> frame s < wdue w.
+  Proof.
+    induction fuel as [|fuel IH]; intros s h Hw; cbn [resume].
+    - destruct (pend s) as [|x r] eqn:Ep; cbn [fst]; [split; [reflexivity|rewrite Ep; intros w []]|].
+      destruct (N.ltb_spec (frame s) (wdue (min_w x r))) as [Hlt|Hge]; cbn [fst].
+      + split; [reflexivity|]. rewrite Ep. intros w Hin. pose proof (min_w_le r x w Hin). lia.
+      + exfalso. rewrite weight_eq, Ep in Hw. cbn [wweight fold_right] in Hw. destruct (wthr x); cbn [w_thr] in Hw; lia.
+    - destruct (pend s) as [|x r] eqn:Ep; cbn [fst]; [split; [reflexivity|rewrite Ep; intros w []]|].
+      destruct (N.ltb_spec (frame s) (wdue (min_w x r))) as [Hlt|Hge]; cbn [fst].
+      + split; [reflexivity|]. rewrite Ep. intros w Hin. pose proof (min_w_le r x w Hin). lia.
+      + set (m := min_w x r).
+        set (s1 := mkSched (remove_w (wseq m) (x :: r)) (paused s) (frame s) (clock s) (sseq s)).
+        pose proof (run_thr_weight H h_end h_kill s1 h (wthr m)) as Hr.
+        pose proof (run_thr_frame s1 h (wthr m)) as Hf.
+        destruct (run_thr H h_end h_kill s1 h (wthr m)) as [s2 h2]. cbn [fst] in Hr, Hf.
+        pose proof (wweight_remove m (x :: r) (min_w_in r x)) as Hm. fold m in Hm.
+        rewrite (weight_eq s) in Hw. rewrite (weight_eq s1) in Hr. rewrite Ep in Hw. unfold s1 in Hr. cbn [pend paused] in Hr.
+        destruct (IH s2 h2) as [F1 F2]; [lia|].
+        unfold s1 in Hf. cbn [frame] in Hf. rewrite Hf in F1, F2. split; assumption.
+  Qed.
+End Due.
+
+(* ---- sensitivity: a move construction that does not re-register (the defect F-C05-a that was
+   fixed in /repo) leaves the registry pointing at the dead stack temporary ---------------------- *)
+Definition move_construct_unregistered (h : ch) (src : N) : ch * N :=
+  match get (cells h) src with
+  | Some v => let '(h1, c) := alloc h v in (wr h1 src (VD DNil), c)
+  | None => (bad h, ncell h)
+  end.
+
+(* the call protocol on the bare cell heap: VM cell 0, temporary 1, newPointer, m_ReturnValue =
+   returnValue, the thread waits, the record cell 2 is move-constructed from the temporary, the
+   temporary dies, the thread ends with the value d *)
+Definition protocol (mc : ch -> N -> ch * N) (d : dval) : ch :=
+  let '(c1, rc) := alloc ch_init (VD DNil) in
+  let '(c2, tm) := alloc c1 (VD DNil) in
+  let c3 := copy_assign (new_pointer c2 tm 0) rc tm in
+  let '(c4, sc) := mc c3 tm in
+  set_value_ref (destroy c4 tm) 0 d rc.
